@@ -46,6 +46,9 @@ type Result struct {
 
 // Ctx is handed to a unit's Run function.
 type Ctx struct {
+	// Reprefix: violation classes are reported under the context's own property (parts that
+	// run another property's case code for their own clause)
+	Reprefix bool
 	Tier     string
 	Seed     int64
 	Unit     string
@@ -101,6 +104,13 @@ func HashBytes(b []byte) uint64 {
 
 // Violate records a violation of the unit's property.
 func (c *Ctx) Violate(class, detail string, replay interface{}) {
+	if c.Reprefix {
+		// a part that re-uses another property's case code reports under its own property
+		own := strings.TrimSuffix(c.Property, "R")
+		if i := strings.Index(class, "/"); i > 0 && class[:i] != own {
+			class = own + class[i:]
+		}
+	}
 	if c.res.ViolationCount == nil {
 		c.res.ViolationCount = map[string]int64{}
 	}
